@@ -36,7 +36,7 @@ CFG_AS = ["the order in which legacy ports are started (Go map iteration) is arb
 CHECKS = {
     "C20": dict(
         level="proof",
-        campaigns=[dict(engine="ipinfo", n=n(3000, 100000)), dict(engine="metrics", n=n(150, 3000))],
+        campaigns=[dict(engine="ipinfo", n=n(3000, 100000)), dict(engine="metrics", n=n(150, 3000)), dict(engine="life", n=n(4, 100), netns=True)],
         trusted_base=["model Model/IPInfo.lean of ipinfo/ipinfo.go tied by the `ipinfo` differential campaign; Model/Metrics.lean of prometheus/metrics.go tied by the `metrics` campaign (real collectors, private registry, fake database, stubbed clock via the verif hook)",
                       "Gen/MetricTable.lean: collectors, label names and provenance classes of every label value (extract/metrictable.go, typed backward tracing) regenerated on every run; the provenance analysis is trusted and backed by the exposition scan"],
         assumptions=["'cannot be parsed' is what Go's net.SplitHostPort/ParseIP reject (after dropping an IPv6 zone); the parser itself is outside the model",
@@ -74,7 +74,7 @@ CHECKS = {
     ),
     "C02": dict(level="proof", campaigns=[TCP_CAMP], trusted_base=TCP_TB, assumptions=TCP_AS),
     "C06": dict(level="proof", campaigns=[TCP_CAMP], trusted_base=TCP_TB, assumptions=TCP_AS),
-    "C15": dict(level="proof", campaigns=[TCP_CAMP], trusted_base=TCP_TB, assumptions=TCP_AS + ["a handler panic would skip AddClosed: conditional on C18"]),
+    "C15": dict(level="proof", campaigns=[TCP_CAMP, dict(engine="mconn", n=n(400, 20000))], trusted_base=TCP_TB, assumptions=TCP_AS + ["a handler panic would skip AddClosed: conditional on C18"]),
     "C13": dict(
         level="proof",
         campaigns=[dict(engine="lockstress", n=n(60, 1500), netns=True)],
